@@ -7,7 +7,7 @@ _ann = {'src/cmb_resource.c': {('cmb_resource_acquire', 1): 'CMV_LOOP_ACQUIRE'}}
 def _g(gid, entry, define, level, bound, fn, **kw):
     return Group(id=gid, prop='C05', harness='resource.c', entry=entry, defines=[define] + kw.pop('defs', []), level=level, bound=bound,
                  backend='sat', timeout=300, tier='quick', canaries=kw.pop('canaries', 1), functions=fn, stubs=_stubs, assumes=_assumes,
-                 also=['C08', 'C14', 'C10', 'C04'] + kw.pop('also_extra', []), replay=replays.resource_replay, **kw)
+                 also=['C08', 'C14', 'C10', 'C04'] + kw.pop('also_extra', []), replay=kw.pop('replay', replays.resource_replay), **kw)
 GROUPS = [
     _g('C05.O1.grab_contract', 'h_grab', 'H_GRAB', 'proved', 'loop-free; contract of resource_grab enforced on its body',
        ['resource_grab (src/cmb_resource.c)'], enforce='resource_grab'),
@@ -15,6 +15,8 @@ GROUPS = [
        ['cmb_resource_acquire', 'record_sample', 'is_available'], replace_calls=[('resource_grab', 'cmv_grab_checked'), ('cmv_grab_forward', 'resource_grab')], loop_contracts=True, annotate=_ann, canaries=2, unwind=4),
     _g('C05.O2.release', 'h_release', 'H_RELEASE', 'bounded-shape', 'caller record list <= 2 entries',
        ['cmb_resource_release', 'cmi_process_remove_holdable'], unwind=4),
+    _g('C05.O2.release_lost', 'h_release_lost', 'H_RELEASE_LOST', 'bounded-shape', 'the caller was preempted (record gone, another holder) and releases anyway; record list <= 2 entries',
+       ['cmb_resource_release', 'cmi_process_remove_holdable'], unwind=4, replay=replays.demo_replay('c05_preempt_interrupt_demo.c')),
     _g('C05.O3.drop', 'h_drop', 'H_DROP', 'bounded-shape', 'dead holder record list <= 2 entries',
        ['cmi_process_drop_resources', 'resource_drop_holder'], unwind=3, also_extra=['C09']),
     _g('C05.O2.preempt', 'h_preempt', 'H_PREEMPT', 'bounded-shape', 'victim record list <= 2 entries; polite path replaced by the acquire contract',
